@@ -115,12 +115,14 @@ PROPS = {
         "units": [dict(solve_unit("harness/solve/src/c13.rs", "harness/solve/src/c13_pairs.rs"),
                        modules={"harness/solve/src/c13.rs": "c13", "harness/solve/src/c13_pairs.rs": "c13"})],
         "claim": "Solution::combine (chalk-solve/src/solve.rs), the operation documented as independent of argument "
-                 "order through which the recursive solver merges the solutions of different clauses: for all 8 x 8 "
-                 "pairs of candidate kinds (Unique trivially-true / with a constraint / ground, Definite identity / "
-                 "ground, Suggested ground / identity, Unknown) and all ids, combine(a, b) == combine(b, a), "
+                 "order through which the recursive solver merges the solutions of different clauses: for all 9 x 9 "
+                 "ordered pairs of candidate kinds (Unique trivially-true / identity with a constraint / ground / ground "
+                 "with a constraint, Definite identity / ground, Suggested ground / identity, Unknown), with equal and "
+                 "with different ground substitutions, combine(a, b) == combine(b, a), "
                  "combine(a, a) == a, and the result is Unique / Definite(s) / Suggested(s) only when the candidates "
                  "support it.",
-        "bounds": "one-variable canonical substitutions (identity or ground with symbolic id), at most one lifetime "
+        "bounds": "one-variable canonical substitutions (identity, or ground with ids fixed per class: equal / different - "
+                  "combine depends on its arguments only through equalities), binder universe symbolic, at most one lifetime "
                   "constraint; one query per ordered pair of candidate kinds; unwind 6",
         "outside": "declaration-order independence of WHOLE solves (program lowering, clause enumeration, "
                    "merge_into_guidance's arrival order, the engines) - those need solver runs, which do not finish "
@@ -139,16 +141,17 @@ PROPS = {
     },
     "C16": {
         "units": [solve_unit("harness/solve/src/c16.rs")],
-        "claim": "Universe compression: UniverseMap::add keeps the universe list strictly sorted and duplicate-free; "
-                 "map_universe_to_canonical is defined exactly on members, strictly monotone and onto 0..n; "
-                 "map_universe_from_canonical inverts it and maps out-of-range canonical universes above every member "
-                 "in order; InferenceTable::u_canonicalize on substitutions of two placeholder leaves of every sort "
-                 "(type, lifetime, const) in arbitrary universes produces dense, order-preserving canonical universes, "
-                 "and UniverseMapExt::map_from_canonical gives the original value back.",
-        "bounds": "three universes added to the map in any order (full usize values); substitutions of two placeholder "
-                  "leaves, sorts fixed per query, universes and indices symbolic (full usize); unwind 8",
-        "outside": "Canonicalizer (first-occurrence numbering through the ena union-find table), instantiate_canonical, "
-                   "invert: they need an InferenceTable, whose ena tables live on the untyped heap (DESIGN.md P30); "
+        "claim": "Undoing universe compression: UniverseMapExt::map_from_canonical (UMapFromCanonical, "
+                 "map_universe_from_canonical) moves a placeholder of every sort (type, lifetime, const) from its "
+                 "canonical universe back to the universe recorded in the map, leaves its index alone, keeps the "
+                 "order of universes, and maps canonical universes beyond the recorded range above every recorded "
+                 "universe in order. (The compressing direction - UniverseMap::add, u_canonicalize - does not finish "
+                 "under CBMC and is outside.)",
+        "bounds": "universe maps [root, x] and [root, x, y] with x < y symbolic (full usize); placeholder leaves of each "
+                  "sort in canonical universes 1..4 (in range and out of range), index symbolic; unwind 8",
+        "outside": "UniverseMap::add / map_universe_to_canonical / u_canonicalize (Vec::insert and binary_search on "
+                   "symbolic universes: DNF at 40 min / 20 GB, DESIGN.md B11); Canonicalizer (first-occurrence numbering "
+                   "through the ena union-find table), instantiate_canonical, invert: they need an InferenceTable, whose ena tables live on the untyped heap (DESIGN.md P30); "
                    "values deeper than a leaf",
         "assumptions": ["placeholders live in non-root universes"],
         "stubs": ["tracing, tracing-attributes: no-op stub crates via [patch.crates-io]"],
